@@ -125,6 +125,10 @@ func init() {
 					if g.Chance(1, 4) {
 						l += fmt.Sprintf(" conc%d.example", (k+1)%4) // a name listed by two lines
 					}
+					if k > 0 && g.Chance(1, 3) {
+						// ... and the FIRST name of the line before, repeated by this later line
+						l += fmt.Sprintf(" conc%d.example", k-1)
+					}
 					lines = append(lines, l)
 				}
 				emit("conc\t" + encList(lines) + "\t" + fmt.Sprint(Pick(g, []int{2, 4, 8, 16})))
@@ -205,11 +209,30 @@ func init() {
 					return strings.Join(p, "|")
 				}
 				want := map[string]string{}
+				flags := ""
 				for _, nm := range names {
 					want[nm] = ser(e.Match(nm))
+					// the reference: the lines that list the name, each under the group of its address
+					var ref []string
+					for _, l := range lines {
+						fl := strings.Fields(l)
+						for _, x := range fl[1:] {
+							if x == nm {
+								grp := "4:"
+								if strings.Contains(fl[0], ":") {
+									grp = "6:"
+								}
+								ref = append(ref, grp+l)
+								break
+							}
+						}
+					}
+					sort.Strings(ref)
+					if r := strings.Join(ref, "|"); r != want[nm] && flags == "" {
+						flags = fmt.Sprintf("!HOSTS-LOOKUP-DIFFERS-FROM-THE-LINES:name=%s lines=%q engine=%q", nm, r, want[nm])
+					}
 				}
 				var mu sync.Mutex
-				flags := ""
 				var wg sync.WaitGroup
 				for w := 0; w < nw; w++ {
 					wg.Add(1)
